@@ -153,6 +153,21 @@ CHECKS["C03"] = (
     "order) is established by the search, not yet by generated facts; curved facets and globally defined elements "
     "are search only (partial).")
 
+CHECKS["C06"] = (
+    "Lean 4 proof composing C01 (assembly) and C05 (condense/expand) + sharp 1e-10 patch tests and projection identity",
+    "Theorems for any commutative ring, basis, quadrature and mesh (curved ones included): the load vector assembled "
+    "from the interpolation of a coefficient vector x* IS M x* (tested against every v, and entrywise), hence the L2 "
+    "projection returns x* whenever the mass matrix is injective; patch test: if the discrete equations hold for x* "
+    "on the kept rows (explicit hypothesis hGalerkin), the prescribed data agree with x* on the constrained DOFs and "
+    "the condensed system has at most one solution, then solve(*condense(A, b, x, D)) IS x*. Search: Poisson / "
+    "reaction-diffusion / linear elasticity with polynomial exact solutions of the element's degree on random "
+    "irregular renumbered meshes (segments, triangles, tetrahedra, parallelogram/box cells; degree one on general "
+    "convex quadrilaterals), random Dirichlet/Neumann splits along facet sets with Dirichlet data from "
+    "FacetBasis.project on get_dofs(facets), compared at 1e-10 with the nodal values; L2 projection identity on whole "
+    "mesh / subdomain / boundary part for every element family incl. curved meshes.",
+    "The derivation of hGalerkin from the strong form (Green's identity) is not formalised; spsolve is a trusted "
+    "contract; rounding not modelled (partial).")
+
 NOT_YET = {}
 
 
